@@ -170,8 +170,9 @@ type CqlClientConnection struct {
 	cancel             context.CancelFunc
 	payloadAccumulator *payloadAccumulator
 
-	// channelsLock guards the closing of the outgoing channel: senders hold the read lock while they check that the
-	// connection is not closed and enqueue (without blocking); Close closes the channel under the write lock.
+	// channelsLock guards the closing of the outgoing and events channels: senders and the incoming loop hold the
+	// read lock while they check that the connection is not closed and enqueue (without blocking); Close closes the
+	// channels under the write lock.
 	channelsLock sync.RWMutex
 }
 
@@ -435,12 +436,15 @@ func (c *CqlClientConnection) processIncomingFrame(incoming *frame.Frame) (abort
 		for _, handler := range c.handlers {
 			handler(incoming, c)
 		}
+		// events is set to nil when the connection is closed: the frame is then discarded
+		c.channelsLock.RLock()
 		select {
 		case c.events <- incoming:
 			log.Debug().Msgf("%v: incoming event frame successfully delivered: %v", c, incoming)
 		default:
 			log.Error().Msgf("%v: events queue is full, discarding event frame: %v", c, incoming)
 		}
+		c.channelsLock.RUnlock()
 	} else {
 		if err := c.inFlightHandler.onIncomingFrameReceived(incoming); err != nil {
 			log.Error().Err(err).Msgf("%v: incoming frame delivery failed: %v", c, incoming)
@@ -615,10 +619,10 @@ func (c *CqlClientConnection) Close() (err error) {
 		// the outgoing field is not set to nil, it is read by Send and by the outgoing loop
 		c.channelsLock.Lock()
 		close(c.outgoing)
-		c.channelsLock.Unlock()
 		events := c.events
 		c.events = nil
 		close(events)
+		c.channelsLock.Unlock()
 		c.inFlightHandler.close()
 		c.waitGroup.Wait()
 		if err != nil {
